@@ -135,7 +135,7 @@ func leafClass(label string) string {
 	return strings.Join(parts, ".")
 }
 
-var numRe = regexp.MustCompile(`[0-9]+`)
+var numRe = regexp.MustCompile(`\b[0-9]+\b`)
 
 // errClass normalises an error text into a finding-key component (numbers removed, truncated): the
 // message names the refusing call site, which is what identifies a finding.
